@@ -475,7 +475,14 @@ RunBatch(s, m, f) ==
              calls |-> b.acc.calls, evs |-> IF b.ok THEN b.acc.evs ELSE <<>>, inner |-> b.acc.outs],
    post |-> IF b.ok THEN b.st ELSE s]
 
+(* [type |-> "Simulate", tx |-> m] : the node executes transaction m on a branch that is ALWAYS discarded (gas   *)
+(* simulation, CheckTx).  The caller learns the outcome; the chain state, by construction, does not change.       *)
+RunSimulate(s, m, f) ==
+  LET r == IF m.tx.type = "Batch" THEN RunBatch(s, m.tx, f).out ELSE Out(RunT(s, m.tx, f)) IN
+  [out |-> [msg |-> m, faults |-> r.faults, res |-> r.res, resp |-> r.resp, calls |-> r.calls, evs |-> r.evs], post |-> s]
+
 Run(s, m, f) ==
+  IF m.type = "Simulate" THEN RunSimulate(s, m, f) ELSE
   IF m.type = "Batch" THEN LET r == RunBatch(s, m, f) IN [out |-> r.out, post |-> r.post]
   ELSE LET t == RunT(s, m, f) IN [out |-> Out(t), post |-> Commit(s, t)]
 
@@ -518,6 +525,7 @@ HistExtend1(h, o) ==
 RECURSIVE HistFoldOuts(_, _)
 HistFoldOuts(h, outs) == IF outs = <<>> THEN h ELSE HistFoldOuts([HistExtend1(h, Head(outs)) EXCEPT !.steps = h.steps], Tail(outs))
 HistExtend(h, o) ==
+  IF o.msg.type = "Simulate" THEN [h EXCEPT !.steps = @ + 1] ELSE          \* a simulation leaves no trace
   IF o.msg.type # "Batch" THEN HistExtend1(h, o)
   ELSE IF o.res # "ok" THEN [h EXCEPT !.steps = @ + 1]
   ELSE [HistFoldOuts(h, o.inner) EXCEPT !.steps = h.steps + 1]
